@@ -734,6 +734,18 @@ impl<D: StorageData> Storage<D> {
     }
 }
 
+#[cfg(agdb_verif)]
+impl<D: StorageData> Storage<D> {
+    /// Raw bytes of the underlying data and a rendering of the in-memory
+    /// record table (verification only).
+    pub(crate) fn verif_state(&self) -> Result<(Vec<u8>, String), DbError> {
+        Ok((
+            self.data.read(0, self.data.len())?.to_vec(),
+            format!("{:?} tx={}", self.records, self.transactions),
+        ))
+    }
+}
+
 #[cfg(test)]
 mod tests {
     use super::*;
